@@ -89,8 +89,8 @@ Definition order_okb (h : hist) : bool :=
 (* ---- whole-run replay of a recorded, globally ordered trace (the fixed overtake schedule of harness/c05_sync.c):
    the hook does not report the tau steps, so they are searched for: the acting thread's own taus right before its
    event, and -- only when the event is not possible otherwise -- taus of another thread (a push on the root queue, the
-   store that links a pushed item).  Returns (-1, order_okb of the final history) when the whole trace is a run of the
-   model, else (index of the deepest event that could not be matched, false). ---- *)
+   store that links a pushed item).  Returns (-1, b) when the whole trace is a run of the model, b = no item started before
+   what it had to follow had finished; else (index of the deepest event that could not be matched, false). ---- *)
 Definition xst := (gst * hist)%type.
 Definition xstep_with (ts : Z -> pc -> event -> option (pc * list act)) (x : xst) (t : Z) (e : event) : option xst :=
   match gstep_with ts (fst x) t e with Some s' => Some (s', hstep_with ts (fst x) (snd x) t e) | None => None end.
@@ -104,13 +104,16 @@ Definition after_own ts (x : xst) (t : Z) (e : event) : list xst :=
   flat_map (fun x0 => match xstep_with ts x0 t e with Some x' => [x'] | None => [] end) (tau_states ts 3 x t).
 Definition after_foreign ts (ths : list Z) (x : xst) (t : Z) (e : event) : list xst :=
   flat_map (fun u => if u =? t then [] else flat_map (fun x0 => after_own ts x0 t e) (tl (tau_states ts 2 x u))) ths.
-Fixpoint xreplay ts (ths : list Z) (x : xst) (tr : list (Z * event)) (i : Z) : Z * bool :=
+(* the item that started last has everything it must follow finished (checked after every step: exact, since finished grows) *)
+Definition head_ok (h : hist) : bool :=
+  match started h with b :: _ => forallb (fun a => existsb (Z.eqb a) (finished h)) (pre h b) | [] => true end.
+Fixpoint xreplay ts (ths : list Z) (x : xst) (tr : list (Z * event)) (i : Z) (ok : bool) : Z * bool :=
   match tr with
-  | [] => (-1, order_okb (snd x))
+  | [] => (-1, ok)
   | (t, e) :: tr' =>
       let cands := match after_own ts x t e with [] => after_foreign ts ths x t e | l => l end in
       fold_left (fun acc x' => if fst acc =? -1 then acc
-                               else let r := xreplay ts ths x' tr' (i + 1) in
+                               else let r := xreplay ts ths x' tr' (i + 1) (ok && head_ok (snd x')) in
                                     if fst r =? -1 then r else (Z.max (fst acc) (fst r), false))
                 cands (i, false)
   end.
